@@ -447,6 +447,9 @@ func (c *trCtx) nilableValue(e ast.Expr, fieldTy types.Type) string {
 	if c.isNil(e) {
 		return "(none : Option " + lt + ")"
 	}
+	if r, ok := c.createNilableValue(e); ok {
+		return r // a tracked slice variable (trans_units_create.go)
+	}
 	switch x := trUnparen(e).(type) {
 	case *ast.CompositeLit:
 		return "(some " + c.expr(x) + ")"
